@@ -440,7 +440,7 @@ func validateImplements(schema *Schema, def *Definition, intfName string) *gqler
 				)
 			}
 
-			if !requiredArg.Type.IsCompatible(foundArg.Type) {
+			if requiredArg.Type.String() != foundArg.Type.String() {
 				return gqlerror.ErrorPosf(foundArg.Position,
 					`For %s to implement %s the field %s must have the same arguments but %s has the wrong type.`,
 					def.Name, intf.Name, requiredField.Name, requiredArg.Name,
